@@ -775,9 +775,7 @@ class Fn:
                     key = dterm
                     choices = [(lab, tt) for (v, tt), lab in zip(targets, labels[:-1])] + [(labels[-1], otherwise)]
                     if key in memo:
-                        prev = memo[key]
-                        choices = [(lab, tt) for lab, tt in choices if lab == prev] or \
-                                  [(lab, tt) for lab, tt in choices if lab.startswith('!') and prev not in lab[1:].split('|')]
+                        choices = [(lab, tt) for lab, tt in choices if memo_compatible(memo[key], lab)]
                     branches = []
                     for lab, tt in choices:
                         if tt not in blocks:
@@ -791,7 +789,7 @@ class Fn:
                         return
                     for lab, tt, e in branches:
                         m2 = dict(memo)
-                        m2[key] = lab
+                        m2[key] = memo_update(memo.get(key), lab)
                         ev = Ev('atom', bb, t['line'], held_of(guards), t.get('mac'), term=dterm, outcome=lab)
                         u2 = dict(used)
                         u2[e] = u2.get(e, 0) + 1
@@ -825,11 +823,38 @@ class Fn:
         return labs + ['!' + '|'.join(labs)]
 
 
+def memo_compatible(know, lab):
+    kind, v = know
+    if lab.startswith('!'):
+        ex = set(lab[1:].split('|'))
+        return v not in ex if kind == 'eq' else True
+    return v == lab if kind == 'eq' else lab not in v
+
+
+def memo_update(know, lab):
+    if lab.startswith('!'):
+        ex = frozenset(lab[1:].split('|'))
+        if know is None:
+            return ('ne', ex)
+        return know if know[0] == 'eq' else ('ne', know[1] | ex)
+    return ('eq', lab)
+
+
 def fold_call(callee, args):
     """evaluate a few pure std calls on values built on this path"""
     if not args:
         return None
     a = args[0]
+    if a[0] == 'agg' and a[1].endswith('option::Option') and a[2] == 'None':
+        nc = norm_callee(callee)
+        if nc.endswith('Option::is_none_or'):
+            return ('const', 'true')
+        if nc.endswith('Option::is_some_and'):
+            return ('const', 'false')
+        if nc.endswith('Option::map_or') and len(args) == 3:
+            return args[1]
+        if nc.endswith('Option::unwrap_or') and len(args) == 2:
+            return args[1]
     if a[0] == 'agg' and a[1].endswith('option::Option'):
         if callee.endswith('::is_none'):
             return ('const', 'true' if a[2] == 'None' else 'false')
